@@ -70,6 +70,7 @@ LEVEL = {
     "not_decided": "that user aclose()/lock __aexit__ really release (user code).",
     "technique": "static analysis: exceptional-successor coverage on a CFG with exception edges",
 }
+LEVEL["decided"] += ' R18.4 shares the enter_context table R14.4 (a manager is registered only after it was entered).'
 
 # ExitStack's own protocol: it *is* the code that calls __aenter__/__aexit__ by hand
 MANUAL_PROTOCOL_OK = {
